@@ -1594,6 +1594,11 @@ class C13(Prop):
                     x = (w, r.choice([0, 1, 7, 8, 8 * w - 1, 8 * w, 8 * w + 1, 200]))
                 x, y = y, x
             out.append(show(['uop', op, x[0], x[1], y[0], y[1]]))
+            if r.random() < 0.08:
+                # both operands equal (the harness then passes ONE object twice: `x op x`), values with the top bit set included
+                e = r.choice([a, 1 << (8 * w - 1), (1 << (8 * w)) - 1, (1 << (8 * w - 1)) + r.randint(0, 200), 3, 0])
+                eop = r.choice(['add', 'add', 'mul', 'sub', 'xor', 'or', 'and', 'floordiv', 'mod']) if 'add' in self.OPS else op
+                out.append(show(['uop', eop, w, e, w, e]))
             if r.random() < 0.1:
                 out.append(show(['uinv', w, a]))
             if r.random() < 0.1:
@@ -3438,6 +3443,107 @@ def _with_inh(cls):
 
 for _c in (C01, C02, C03, C11, C12, C15, C16):
     _with_inh(_c)
+
+
+# --- constructor-argument spellings of VALID values (bytes / hex string / generator / tuple / plain python values) for the
+# value properties: whichever way a valid value is spelled, its root and encoding are the spec's
+
+def ctor_valid_cases(g, n):
+    r = g.rng
+    out = []
+    for _ in range(n):
+        if r.random() < 0.5:
+            t = r.choice([['list', 'u8', g.bound(1, 129)], ['vec', 'u8', g.bound(1, 129)], ['Bv', g.bound(1, 129)], ['Bl', g.bound(1, 129)]])
+            v = g.val(t, 20)
+            c = r.random()
+            if c < 0.5 and isinstance(v, str) and v[:1] == 'x' and len(v) >= 3:
+                # leading / trailing zero bytes, bytes that print as '0' or 'x' characters
+                body = v[1:]
+                kb = min(r.choice([1, 1, 2]), len(body) // 2)
+                v = 'x' + ('00' * kb + body[2 * kb:] if r.random() < 0.7 else body[:len(body) - 2 * kb] + '00' * kb)
+            elif c < 0.5 and isinstance(v, list) and len(v) >= 2:
+                v = [v[0]] + ['0' if i < r.choice([1, 2]) else x for i, x in enumerate(v[1:])]
+        else:
+            t = g.ty(r.choice([1, 2, 2, 3]), composite_only=r.random() < 0.8)
+            v = g.val(t, 12)
+        out.append(show(['ctor', t, r.choice(g.spellings(t)), v]))
+    return out
+
+
+def _with_ctor(cls, what):
+    g0, c0 = cls.generate, cls.compare
+
+    def generate(self, g, tier, focus=None):
+        out = g0(self, g, tier, focus)
+        return out + ctor_valid_cases(g, max(20, self.n(tier) // 8))
+
+    def compare(self, case, py, mo, stats):
+        if case[0] == 'ctor':
+            bump(stats, 'kinds', 'ctor:' + case[2])
+            if mo.get('wt') != '1':
+                return []
+            if py.get('p.ctor') != 'ok':
+                return [F('corr', 'constructor rejected a valid value (%s spelling)' % case[2], 'err', 'ok')]
+            out = []
+            if 'root' in what and py.get('p.root') != mo['s.root']:
+                out.append(F('prop', 'hash_tree_root of a value constructed from the %s spelling' % case[2], py.get('p.root'), mo['s.root']))
+            if 'bytes' in what and py.get('p.bytes') != mo['s.bytes']:
+                out.append(F('prop', 'encoding of a value constructed from the %s spelling' % case[2], py.get('p.bytes'), mo['s.bytes']))
+            return out
+        return c0(self, case, py, mo, stats)
+    cls.generate, cls.compare = generate, compare
+
+
+_with_ctor(C01, ('root',))
+_with_ctor(C02, ('bytes',))
+
+
+# --- the library's other documented configuration, settings.ENDIANNESS = 'big' (harness/be_child.py): the configuration-
+# independent clauses (decode inverts encode; a decoded value is well-formed), python against python
+
+BE_FLAGS = ('root of the decoded value', 're-encoding', 'content', 'value_byte_length', 'stream decode (root, exact consumption)',
+            'fresh value of the decoded content', '==', 'second cycle')
+
+
+def be_cases(g, n):
+    r = g.rng
+    out = []
+    for _ in range(n):
+        c = r.random()
+        if c < 0.35:
+            o = lambda: r.choice(['u8', 'u16', 'u32', 'u64', ['list', 'u8', 4], ['Bv', 3], ['cont', 'u16', ['bl', 5]], ['vec', 'u16', 2], ['bl', 9]])
+            t = ['union'] + (['none'] if r.random() < 0.5 else []) + [o() for _ in range(r.choice([1, 2, 3]))]
+            if r.random() < 0.5:
+                t = r.choice([['cont', 'u8', t], ['list', t, 3], ['vec', t, 2], ['cont', t, ['list', 'u16', 3]]])
+        else:
+            t = g.ty(r.choice([1, 2, 2, 3]), composite_only=r.random() < 0.8)
+        out.append(show(['be', t, g.val(t, 6)]))
+    return out
+
+
+def _with_be(cls):
+    g0, c0 = cls.generate, cls.compare
+
+    def generate(self, g, tier, focus=None):
+        out = g0(self, g, tier, focus)
+        return out + be_cases(g, max(30, self.n(tier) // 10))
+
+    def compare(self, case, py, mo, stats):
+        if case[0] == 'be':
+            bump(stats, 'kinds', 'big-endian:' + kind(case[1]))
+            if mo.get('wt') != '1':
+                return []
+            fl = py.get('p.be', '')
+            if fl != '1' * len(BE_FLAGS):
+                bad = [BE_FLAGS[i] for i, ch in enumerate(fl) if ch != '1'] if len(fl) == len(BE_FLAGS) and set(fl) <= {'0', '1'} else [fl]
+                return [F('prop', 'configuration ENDIANNESS=big: decoding the encoding of a valid value fails or yields an ill-formed / different value (%s)' % ', '.join(bad), fl, '1' * len(BE_FLAGS))]
+            return []
+        return c0(self, case, py, mo, stats)
+    cls.generate, cls.compare = generate, compare
+
+
+_with_be(C03)
+_with_be(C09)
 
 
 REG = {}
